@@ -10,8 +10,9 @@ by the property; crash points are enumerated on the real code under DetSim by th
 namespace Mpire.C07
 open Mpire.Watch
 
-/-- **No false positive**: for every interleaving of a worker's normal life (start, alive, exit, restart by a new
-object) with the death scan's individual reads, the scan never declares a death when nobody was killed. -/
+/-- **No false positive**: for every interleaving of a worker's normal life (start — with the child running before
+`Process.start()` has returned in the parent —, alive, exit, restart by a new object) with the death scan's individual reads,
+the scan never declares a death when nobody was killed. -/
 theorem restart_not_death (s : DSt) (h : DReachable s) (hk : s.everKilled = false) : s.scan ≠ .verdict true :=
   Mpire.Proofs.Watch.restart_not_death s h hk
 
@@ -21,9 +22,10 @@ theorem kill_freezes_worker (s : DSt) (hk : s.w.killed = true) (hos : s.w.osAliv
   Mpire.Proofs.Watch.kill_freezes_worker s hk hos
 
 /-- … so **the next full pass of the scan detects it**: killed while its alive flag is set ⇒ verdict "died". -/
-theorem death_detected (s : DSt) (h : DReachable s) (hk : s.w.killed = true) (hf : s.w.flag = true) (hi : s.scan = .idle) :
-    (drun s [.read, .read, .read, .read, .read]).map (·.scan) = some (.verdict true) :=
-  Mpire.Proofs.Watch.death_detected s h hk hf hi
+theorem death_detected (s : DSt) (h : DReachable s) (hk : s.w.killed = true) (hf : s.w.flag = true) (hkn : s.w.known = true)
+    (hi : s.scan = .idle) :
+    (drun s [.read, .read, .read, .read, .read, .read]).map (·.scan) = some (.verdict true) :=
+  Mpire.Proofs.Watch.death_detected s h hk hf hkn hi
 
 /-- **Containment**: the death is a failure event of the protocol; whatever the dead instance held is dropped, nothing is
 executed twice, nothing wrong is delivered, and a result list is complete only if every result had been delivered. -/
@@ -82,9 +84,11 @@ theorem apply_death_isolated_partial (s s1 s2 : Mpire.Handover.St)
 example : (Mpire.Handover.run {} [.takePill, .ackPill, .takeTask, .announce]).map (fun s => (s.w, s.unacked, s.alive, s.poolFailed)) =
     some (.announced, 1, true, false) := by decide
 
-example : (drun {} [.signalAlive, .read, .read, .signalDead, .processExit, .read, .read, .read]).map (·.scan) =
+example : (drun {} [.startReturns, .signalAlive, .read, .read, .signalDead, .processExit, .read, .read, .read, .read]).map (·.scan) =
     some (.verdict false) := by decide +kernel
-example : (drun {} [.signalAlive, .kill, .read, .read, .read, .read, .read]).map (·.scan) = some (.verdict true) := by
+example : (drun {} [.startReturns, .signalAlive, .kill, .read, .read, .read, .read, .read, .read]).map (·.scan) = some (.verdict true) := by
   decide +kernel
+/-- the start window: the child has marked itself alive, the parent's object does not know it yet — not a death -/
+example : (drun {} [.signalAlive, .read, .read, .read]).map (·.scan) = some (.verdict false) := by decide +kernel
 
 end Mpire.C07
